@@ -183,6 +183,7 @@ func corpusCrud() []*modSpec {
 			modFile{"types.go", "package models\n\ntype Kind string\n\nconst (\n\tFragile Kind = \"fragile\"\n\tHeavy Kind = \"heavy\"\n)\n\ntype Grade int\n\nconst (\n\tGradeLow Grade = iota\n\tGradeHigh\n)\n\n// an integer and a string enum: stored as JSON\ntype Sticker struct {\n\tWeight int\n\tKind Kind\n}\n\n// integers and an integer enum: a composite type\ntype Position struct {\n\tX int\n\tY int\n\tL Grade\n}\n\ntype Words []string\n"}),
 		mk("crud-composite-with-hidden-fields", "package models\n\ntype IdTrack int64\n\ntype Track struct {\n\tId IdTrack\n\tTitle string\n\tExtent Span\n\tW Window\n}\n",
 			modFile{"types.go", "package models\n\ntype Span struct {\n\tLo int\n\tHi int\n\tcache int\n}\n\ntype Window struct {\n\tFrom int `json:\"from\"`\n\tSkip int `json:\"-\"`\n\tTo int16\n}\n"}),
+		mk("crud-fields-that-are-not-columns-before-the-id", "package models\n\ntype IdUser int64\n\ntype User struct {\n\tdirty bool\n\tcache []int\n\tId IdUser\n\tName string\n\tAge int16\n}\n\ntype IdPost int64\n\ntype Post struct {\n\tTitle string\n\tloaded bool\n\tId IdPost\n\tIdUser IdUser\n}\n"),
 		mk("crud-enum-with-unexported-constant", "package models\n\ntype IdTask int64\n\ntype Task struct {\n\tId IdTask\n\tTitle string\n\tState TaskState\n\tFlag TaskState `gomacro-sql-guard:\"#[TaskState.archived]\"`\n}\n", modFile{"types.go", "package models\n\ntype TaskState int\n\nconst (\n\tTodo TaskState = iota\n\tDoing\n\tarchived\n)\n"}),
 		withClass(mk("crud-single-column", "package models\n\ntype IdTag int64\n\ntype Tag struct {\n\tId IdTag\n\tName string\n}\n"), "update-single-column-row"),
 		withClass(mk("crud-id-only", "package models\n\ntype IdCounter int64\n\ntype Counter struct {\n\tId IdCounter\n}\n"), "table-with-only-an-id"),
